@@ -3,8 +3,11 @@
 package main
 
 import (
+	"encoding/binary"
 	"fmt"
 	"strings"
+
+	"github.com/xelaj/mtproto/zverif/ref/mtp1"
 
 	"github.com/xelaj/mtproto/zverif/hs"
 	"github.com/xelaj/mtproto/zverif/ref/authsrv"
@@ -54,6 +57,46 @@ func menu(thorough bool) []authsrv.Fault {
 	return m
 }
 
+// followUps: what a server may still send on the connection after the client abandoned the exchange. Nothing
+// of it may make the client store a session or send an encrypted frame.
+var followUpNames = []string{"none", "plain new_session_created", "plain bad_server_salt", "encrypted new_session_created under the abandoned key", "plain dh_gen_ok again"}
+
+func le64(v uint64) []byte { return binary.LittleEndian.AppendUint64(nil, v) }
+func le32(v uint32) []byte { return binary.LittleEndian.AppendUint32(nil, v) }
+
+func plainFrame(msgID int64, body []byte) []byte {
+	f := append(le64(0), le64(uint64(msgID))...)
+	f = append(f, le32(uint32(len(body)))...)
+	return append(f, body...)
+}
+
+func followUp(k int, a *authsrv.Server) []byte {
+	const msgID = int64(1700000000)<<32 | 0x4001
+	nsc := append(le32(0x9ec20908), append(le64(5), append(le64(77), le64(0x0123456789)...)...)...)
+	switch k {
+	case 1:
+		return plainFrame(msgID, nsc)
+	case 2:
+		bss := append(le32(0xedab447b), append(le64(uint64(msgID-0x4001)), append(le32(1), append(le32(48), le64(0x0abcdef123)...)...)...)...)
+		return plainFrame(msgID, bss)
+	case 3:
+		if len(a.AuthKey) != 256 {
+			return nil
+		}
+		m := mtp1.Msg{Salt: a.Salt, Session: 0, MsgID: msgID, SeqNo: 1, Body: nsc}
+		return mtp1.Seal(a.AuthKey, m, make([]byte, mtp1.PadLen(len(nsc))), 8)
+	case 4:
+		if len(a.Nonce) != 16 {
+			return nil
+		}
+		gen := append(le32(0x3bcbf734), a.Nonce...)
+		gen = append(gen, a.C.ServerNonce...)
+		gen = append(gen, make([]byte, 16)...)
+		return plainFrame(msgID, gen)
+	}
+	return nil
+}
+
 func faultClass(f authsrv.Fault) string {
 	how := f.How
 	if i := strings.IndexByte(how, ':'); i >= 0 {
@@ -64,7 +107,7 @@ func faultClass(f authsrv.Fault) string {
 
 func main() {
 	run := vr.New("C07", "fault_enumeration")
-	run.Rule("a conformant exchange (reference server R3, real client under the controlled scheduler, default schedule) with exactly one fault from the menu: every echoed nonce/server_nonce/new_nonce_hash field of every reply x {bit flips, fresh value, the other nonce, zero}; fingerprint list {none matching, empty, halves swapped}; SHA-1 prefix bit flips, content change without fixing the prefix, ciphertext truncated by a block, odd length, a flipped bit in each ciphertext block; failure/retry constructors; an unrelated reply at each step; all entries are run; non-trivial = distinct fault")
+	run.Rule("a conformant exchange (reference server R3, real client under the controlled scheduler, default schedule) with exactly one fault from the menu: every echoed nonce/server_nonce/new_nonce_hash field of every reply x {bit flips, fresh value, the other nonce, zero}; fingerprint list {none matching, empty, halves swapped}; SHA-1 prefix bit flips, content change without fixing the prefix, ciphertext truncated by a block, odd length, a flipped bit in each ciphertext block; failure/retry constructors; an unrelated reply at each step; every fault alone and followed by each of 4 further server messages on the same connection after the abort (plain new_session_created, plain bad_server_salt, new_session_created sealed under the abandoned key, a second dh_gen_ok); plus key histories: after a conformant exchange with test key A, a client configured with key B against a server offering only the fingerprint of A (all 6 ordered pairs); all entries are run; non-trivial = distinct fault")
 	run.Assume("the unfaulted exchange succeeds (checked first, and by C06)", "a fault that makes the server itself unable to continue (it never answers) is not in the menu: the client has no timeout, which is not what this property states")
 	base := hs.Base()
 	// sanity: the unfaulted exchange succeeds
@@ -76,45 +119,115 @@ func main() {
 	}
 	faults := menu(run.Thorough())
 	for i, f := range faults {
-		f := f
-		cfg := base
-		cfg.Fault = &f
-		id := "fault " + f.String()
-		sc := hs.Scenario(id, cfg, uint64(3+i%4))
-		sc.AfterConnectFailure = func(w *sess.World) { w.M.Disconnect() }
-		w := sess.Run(sc, nil, false)
-		if w.Auth == nil || !w.Auth.Applied {
-			run.Add("faults_not_applicable", 1)
-			continue // e.g. a ciphertext block index beyond the answer
-		}
-		run.Eval(id, true)
-		run.Outcome(outcome(w))
-		rep := map[string]any{"fault": f.String(), "seed": 3 + i%4}
-		cls := faultClass(f)
-		switch {
-		case w.ConnPanic != "":
-			run.Violation("panic|"+cls+"|"+vr.MsgClass(w.ConnPanic)+"|"+w.ConnPanicFrame, fmt.Sprintf("%s: CreateConnection panics instead of returning an error: %s (in %s)", id, w.ConnPanic, w.ConnPanicFrame), rep)
-		case w.Fatal != nil:
-			run.Violation("fatal|"+cls+"|"+vr.MsgClass(w.Fatal.Msg)+"|"+w.Fatal.Frame, fmt.Sprintf("%s: goroutine %s panics: %s", id, w.Fatal.Thread, w.Fatal.Msg), rep)
-		case !w.ConnReturned:
-			run.Violation("hangs|"+cls, fmt.Sprintf("%s: CreateConnection never returns; server steps %v problems %v; blocked %v", id, w.Auth.Steps, w.Auth.Problems, w.Stalled()), rep)
-		case w.ConnErr == nil:
-			run.Violation("accepted|"+cls, fmt.Sprintf("%s: the exchange completes without error (server steps %v)", id, w.Auth.Steps), rep)
-		}
-		if len(w.Store.Stores) > 0 {
-			run.Violation("session-stored|"+cls, fmt.Sprintf("%s: a session was stored (%d times)", id, len(w.Store.Stores)), rep)
-		}
-		for _, fr := range w.Srv.Frames {
-			if !fr.Plain {
-				run.Violation("encrypted-frame-sent|"+cls, id+": an encrypted frame was sent", rep)
-				break
+		for fu := range followUpNames {
+			f := f
+			cfg := base
+			cfg.Fault = &f
+			id := "fault " + f.String()
+			if fu > 0 {
+				id += " then " + followUpNames[fu]
+			}
+			sc := hs.Scenario(id, cfg, uint64(3+i%4))
+			pushed := false
+			sc.AfterConnectFailure = func(w *sess.World) {
+				if fu > 0 && len(w.Net.Conns) > 0 && w.Auth != nil {
+					if fr := followUp(fu, w.Auth); fr != nil {
+						c := w.Net.Conns[len(w.Net.Conns)-1]
+						pushed = true
+						c.PushRaw(fr)
+						// the reader takes it and goes back to waiting; if it gets stuck instead, the run ends
+						// quiescent with this thread parked here (a stall is not what the property is about)
+						w.S.WaitUntil("follow-up consumed", c.Drained)
+					}
+				}
+				w.M.Disconnect()
+			}
+			w := sess.Run(sc, nil, false)
+			if w.Auth == nil || !w.Auth.Applied {
+				if fu == 0 {
+					run.Add("faults_not_applicable", 1)
+				}
+				break // e.g. a ciphertext block index beyond the answer
+			}
+			if fu > 0 && !pushed {
+				continue // this follow-up needs state the exchange did not reach
+			}
+			run.Eval(id, true)
+			run.Outcome(outcome(w))
+			rep := map[string]any{"fault": f.String(), "seed": 3 + i%4, "follow_up": fu}
+			cls := faultClass(f)
+			if fu > 0 {
+				cls += "|then-" + strings.ReplaceAll(followUpNames[fu], " ", "-")
+			}
+			switch {
+			case w.ConnPanic != "":
+				run.Violation("panic|"+cls+"|"+vr.MsgClass(w.ConnPanic)+"|"+w.ConnPanicFrame, fmt.Sprintf("%s: CreateConnection panics instead of returning an error: %s (in %s)", id, w.ConnPanic, w.ConnPanicFrame), rep)
+			case w.Fatal != nil:
+				run.Violation("fatal|"+cls+"|"+vr.MsgClass(w.Fatal.Msg)+"|"+w.Fatal.Frame, fmt.Sprintf("%s: goroutine %s panics: %s", id, w.Fatal.Thread, w.Fatal.Msg), rep)
+			case !w.ConnReturned:
+				run.Violation("hangs|"+cls, fmt.Sprintf("%s: CreateConnection never returns; server steps %v problems %v; blocked %v", id, w.Auth.Steps, w.Auth.Problems, w.Stalled()), rep)
+			case w.ConnErr == nil:
+				run.Violation("accepted|"+cls, fmt.Sprintf("%s: the exchange completes without error (server steps %v)", id, w.Auth.Steps), rep)
+			}
+			if len(w.Store.Stores) > 0 {
+				run.Violation("session-stored|"+cls, fmt.Sprintf("%s: a session was stored (%d times)", id, len(w.Store.Stores)), rep)
+			}
+			for _, fr := range w.Srv.Frames {
+				if !fr.Plain {
+					run.Violation("encrypted-frame-sent|"+cls, id+": an encrypted frame was sent", rep)
+					break
+				}
+			}
+			if w.ConnReturned && w.ConnErr != nil {
+				if st := w.Stalled(); len(st) > 0 {
+					// not part of the statement (error, nothing stored, nothing encrypted sent): a goroutine left
+					// blocked after the abort is counted as a diagnostic only
+					run.Count("diagnostic_goroutines_left_blocked_after_abort", 1)
+				}
 			}
 		}
-		if w.ConnReturned && w.ConnErr != nil {
-			if st := w.Stalled(); len(st) > 0 {
-				// not part of the statement (error, nothing stored, nothing encrypted sent): a goroutine left
-				// blocked after the abort is counted as a diagnostic only
-				run.Count("diagnostic_goroutines_left_blocked_after_abort", 1)
+	}
+	// ---- history of keys: after a conformant exchange with key A, a client configured with key B meets a
+	// server that holds B but offers only A's fingerprint (every ordered pair of the three test keys)
+	for a := 0; a < 3; a++ {
+		for b := 0; b < 3; b++ {
+			if a == b {
+				continue
+			}
+			cfgA := base
+			cfgA.Key = hs.Key(a)
+			wa := sess.Run(hs.Scenario(fmt.Sprintf("conformant key%d", a), cfgA, 5), nil, false)
+			if wa.ConnErr != nil || !wa.ConnReturned || len(wa.Store.Stores) == 0 {
+				run.Violation(fmt.Sprintf("baseline-exchange-fails|key%d", a), fmt.Sprintf("the unfaulted exchange with test key %d does not succeed: %v", a, wa.ConnErr), nil)
+				continue
+			}
+			cfgB := base
+			cfgB.Key = hs.Key(b)
+			fpA := authsrv.Fingerprint(&hs.Key(a).PublicKey)
+			cfgB.Fingerprints = func(int64) []int64 { return []int64{fpA} }
+			id := fmt.Sprintf("after an exchange with key %d: client configured with key %d, server offers only the fingerprint of key %d", a, b, a)
+			sc := hs.Scenario(id, cfgB, 6)
+			sc.AfterConnectFailure = func(w *sess.World) { w.M.Disconnect() }
+			w := sess.Run(sc, nil, false)
+			run.Eval(id, true)
+			run.Outcome(outcome(w))
+			rep := map[string]any{"history": "keys", "a": a, "b": b}
+			switch {
+			case w.ConnPanic != "":
+				run.Violation("panic|key-history|"+vr.MsgClass(w.ConnPanic)+"|"+w.ConnPanicFrame, id+": CreateConnection panics: "+w.ConnPanic, rep)
+			case !w.ConnReturned:
+				run.Violation("hangs|key-history", id+": CreateConnection never returns", rep)
+			case w.ConnErr == nil:
+				run.Violation("accepted|key-history", id+": the exchange completes without error", rep)
+			}
+			if len(w.Store.Stores) > 0 {
+				run.Violation("session-stored|key-history", id+": a session was stored", rep)
+			}
+			for _, fr := range w.Srv.Frames {
+				if !fr.Plain {
+					run.Violation("encrypted-frame-sent|key-history", id+": an encrypted frame was sent", rep)
+					break
+				}
 			}
 		}
 	}
